@@ -51,6 +51,44 @@ def neighbours(c, rng, tier):
     return out
 
 
+def judge(v, c, e, o):
+    want = c["w"] * c["h"] * 4
+    bound = 4 * want + len(c["data"]) + 4096
+    if e["ok"]:
+        good = o["res"] == "ok" and o["bytes"] == e["bytes"]
+        what = "conformant stream must decode to the reference image"
+    else:
+        good = (o["res"] == "err") or (o["res"] == "ok" and o["len"] == want)
+        what = "malformed input (%s) must yield an error or exactly %d bytes" % (e["why"], want)
+    if good and o["peak"] <= bound:
+        return
+    why = e.get("why", "conformant").split(":")[0].split("(")[0].strip()[:40]
+    cls = "%dbpp:%s:%s:%s" % (c["bpp"], "rle" if c["comp"] else "raw", o["res"] if o["res"] != "ok" else ("alloc" if good else "size"), (norm(o["ek"]) if o["res"] == "panic" else why))
+    v.violation("total:" + cls, "%dx%d %d bpp %s data %s (%d bytes): %s; got %s/%s, %d bytes, peak allocation %d" % (
+        c["w"], c["h"], c["bpp"], "compressed" if c["comp"] else "raw", c["data"][:20], len(c["data"]), what, o["res"], o["ek"][:80], o["len"], o["peak"]),
+        {"case": {k: (c[k] if k != "data" else c[k][:5000]) for k in ("w", "h", "bpp", "comp", "data")}, "spec": {k: (e[k] if k != "bytes" else e[k][:64]) for k in e}, "got": {k: (o[k] if k != "bytes" else o[k][:64]) for k in o}})
+
+
+def selftest8(allc, exps, outs):
+    """corrupted observations (a panic, a buffer of another size, an oversized allocation, a wrong pixel of a conformant
+    stream) must all be flagged by the comparison"""
+    res = []
+    mal = [i for i, e in enumerate(exps) if not e["ok"] and outs[i]["res"] in ("ok", "err")][:400:100]
+    con = [i for i, e in enumerate(exps) if e["ok"] and outs[i]["res"] == "ok" and outs[i]["len"] > 0][:400:100]
+    for i in mal:
+        c, e, o = allc[i], exps[i], outs[i]
+        want = c["w"] * c["h"] * 4
+        for name, o2 in (("panic", dict(o, res="panic", ek="index out of bounds")), ("abort", dict(o, res="abort", ek="")),
+                         ("size_plus_one", dict(o, res="ok", len=want + 1, bytes=[0] * (want + 1))),
+                         ("oversized_allocation", dict(o, peak=4 * want + len(c["data"]) + 4097))):
+            pr = core.Probe(); judge(pr, c, e, o2); res.append(("%s#%d" % (name, i), bool(pr.hits)))
+    for i in con:
+        c, e, o = allc[i], exps[i], outs[i]
+        for name, o2 in (("wrong_pixel", dict(o, bytes=[(o["bytes"][0] + 1) % 256] + o["bytes"][1:])), ("conformant_refused", dict(o, res="err", len=0, bytes=[]))):
+            pr = core.Probe(); judge(pr, c, e, o2); res.append(("%s#%d" % (name, i), bool(pr.hits)))
+    return core.forward_selftest(res)
+
+
 def run(tier, seed):
     v = core.Verdict("C08", tier, seed)
     wd = core.workdir("C08")
@@ -90,24 +128,12 @@ def run(tier, seed):
         exp = codec.expect(wd, small, "c08")
         outs = codec.run_cases(wd, small + big, "c08")
         nconf = 0
-        for i, (c, o) in enumerate(zip(small + big, outs)):
-            want = c["w"] * c["h"] * 4
-            e = exp[i] if i < len(small) else {"ok": False, "why": "large image: only totality is checked"}
-            bound = 4 * want + len(c["data"]) + 4096
-            if e["ok"]:
-                nconf += 1
-                good = o["res"] == "ok" and o["bytes"] == e["bytes"]
-                what = "conformant stream must decode to the reference image"
-            else:
-                good = (o["res"] == "err") or (o["res"] == "ok" and o["len"] == want)
-                what = "malformed input (%s) must yield an error or exactly %d bytes" % (e["why"], want)
-            if good and o["peak"] <= bound:
-                continue
-            why = e.get("why", "conformant").split(":")[0].split("(")[0].strip()[:40]
-            cls = "%dbpp:%s:%s:%s" % (c["bpp"], "rle" if c["comp"] else "raw", o["res"] if o["res"] != "ok" else ("alloc" if good else "size"), (norm(o["ek"]) if o["res"] == "panic" else why))
-            v.violation("total:" + cls, "%dx%d %d bpp %s data %s (%d bytes): %s; got %s/%s, %d bytes, peak allocation %d" % (
-                c["w"], c["h"], c["bpp"], "compressed" if c["comp"] else "raw", c["data"][:20], len(c["data"]), what, o["res"], o["ek"][:80], o["len"], o["peak"]),
-                {"case": {k: (c[k] if k != "data" else c[k][:5000]) for k in ("w", "h", "bpp", "comp", "data")}, "spec": {k: (e[k] if k != "bytes" else e[k][:64]) for k in e}, "got": {k: (o[k] if k != "bytes" else o[k][:64]) for k in o}})
+        allc = small + big
+        exps = [exp[i] if i < len(small) else {"ok": False, "why": "large image: only totality is checked"} for i in range(len(allc))]
+        for c, e, o in zip(allc, exps, outs):
+            nconf += 1 if e["ok"] else 0
+            judge(v, c, e, o)
+        tested = selftest8(allc, exps, outs)
         # all short strings, and grammar-aware random streams (rule evaluated in the harness)
         agg = []
         for args in (["--exhaustive", "2" if tier == "quick" else "2", "--maxdim", "3"], ["--random", "100000" if tier == "quick" else "10000000", "--seed", str(seed)]):
@@ -127,7 +153,7 @@ def run(tier, seed):
                        "depth in {8,15,16,24,32,33}, flag flipped), classified by the reference decoders; cut / resized random encodings; raw data of wrong size up to 300x300; ALL data strings of length <= 2 for every (w,h) in 0..3 x 0..3 at 16 and 32 bpp with both flags "
                        "(+ length <= 1 at 8/15/24/33 bpp); %d grammar-aware random streams; distinct = distinct (geometry, depth, flag, data)" % (len(seeds), agg[1]["evaluations"]),
                "samples": [cases[5], cases[len(cases) // 2]],
-               "conformant_among_neighbours": nconf, "exhaustive_short_strings": {k: agg[0][k] for k in ("evaluations", "ok", "err", "rule_violations")},
+               "conformant_among_neighbours": nconf, "binding_selftest_rejected": tested, "exhaustive_short_strings": {k: agg[0][k] for k in ("evaluations", "ok", "err", "rule_violations")},
                "random_streams": {k: agg[1][k] for k in ("evaluations", "ok", "err", "rule_violations")}, "states": sum(s["states"] for s in s16 + s32)}
         return v.finish("fault_enumeration", cov, [
             "that a panic / oversized allocation happened is observed by the harness (catch_unwind, counting allocator); the specification supplies the enumeration of malformed neighbours and the classification conformant / malformed",
